@@ -485,6 +485,10 @@ def check_c12(chk, rng):
                             "histories with rapid flips, repeats of the same key, flips in the cycle of an input tick, returns to an earlier key, "
                             "unmatched keys; expectation = Dataflow.tla on each selection interval: the branch alone with fresh state on the held "
                             "inputs sampled at selection time then live; distinct = distinct scenario text")
+    # level B of switch_node.cpp (SwitchNode.tla, ten named faults) and the instance discipline of the real switch node's branch
+    # graphs judged by SwitchTrace.tla (level A, 22 clauses)
+    import switch_model
+    switch_model.run(chk, random.Random(hg.seed() * 7919 + 12012))
 
 
 # ------------------------------------------------------------------------------------------------ C11 reduce
